@@ -525,6 +525,10 @@ func (d *DiskKVTest) Open(stopc <-chan struct{}) (uint64, error) {
 		}
 	} else {
 		dbdir = getNewRandomDBDirName(dir, d.fs)
+		// the directory must exist before the pointer naming it is published
+		if err := MkdirAll(dbdir, d.fs); err != nil {
+			return 0, err
+		}
 		if err := saveCurrentDBDirName(dir, dbdir, d.fs); err != nil {
 			return 0, err
 		}
